@@ -7,6 +7,8 @@ Decided statically (DESIGN 4/C08):
              emits only original points, and cannot lose a bin silently
   PARAMLIVE  an argument that some caller passes is honoured by the callee
              (Circuit.surround ignores bounding_region: known finding)
+  CLOSURE    QuickPartitioner's bin blocking is transitive
+  PARAMFLOW  re-wrapping an existing block carries the operation's params
 Block width bounds, dependency blocking and order preservation are
 algorithmic and not decided.
 """
@@ -17,6 +19,8 @@ import ast
 from ..engine import Ctx
 from ..report import Report
 from ..rules import q
+from ..rules import valnum
+from ..rules.paramflow import rule_paramflow
 from ..source import AnalysisError
 from ..source import ClassInfo
 from ..source import FunctionInfo
@@ -45,6 +49,65 @@ def run(ctx: Ctx, rep: Report) -> None:
     sib(ctx, rep)
     path(ctx, rep)
     paramlive(ctx, rep)
+    closure(ctx, rep)
+    rule_paramflow(
+        ctx, rep, 'bqskit/passes/util/extend.py:ExtendBlockSizePass.run', {})
+    rule_paramflow(
+        ctx, rep,
+        PART + 'quick.py:QuickPartitioner.run.process_pending_bins', {
+            'QuickPartitioner.run.process_pending_bins:prev_circ':
+            'the popped block was appended by this very function with '
+            'append_circuit(subc, loc, as_circuit_gate=True): its operation '
+            'parameters are the inner circuit\'s parameters by construction',
+        }, floor=2)
+
+
+def closure(ctx: Ctx, rep: Report) -> None:
+    """CLOSURE: blocking is transitive.  Wherever QuickPartitioner makes a
+    bin A wait for a bin B (`A.blocked_qudits.update(B.qudits)`), A must
+    also wait for everything B waits for
+    (`A.blocked_qudits.update(B.blocked_qudits)`), on the same paths;
+    otherwise A can grow onto a qudit across which B is still ordered
+    before it, and two blocks end up in the wrong order."""
+    f = ctx.fn(PART + 'quick.py:QuickPartitioner.run')
+    g = ctx.cfg(f)
+    n = 0
+    for node in g.nodes:
+        for c in node.calls():
+            fn = norm(c.func)
+            if not fn.endswith('.blocked_qudits.update') or len(c.args) != 1:
+                continue
+            a = fn[:-len('.blocked_qudits.update')]
+            arg = valnum.subst(ctx, f, node, c.args[0])
+            if not (isinstance(arg, ast.Attribute) and arg.attr == 'qudits'):
+                continue
+            b = norm(arg.value)
+            n += 1
+            rep.count()
+
+            def inherits(m, a=a, b=b) -> bool:
+                for k in m.calls():
+                    if norm(k.func) == f'{a}.blocked_qudits.update' and len(
+                            k.args) == 1 and norm(valnum.subst(
+                                ctx, f, m, k.args[0])) == (
+                                    f'{b}.blocked_qudits'):
+                        return True
+                return False
+            succ = [x for x, _l in g.succ[node.id]]
+            back = {x.id for x in g.nodes if x.kind in ('for', 'while')}
+            ok = not (g.reach(succ, blocked=g.ids(inherits)) & (
+                back | {g.exit}))
+            rep.check(
+                ok, 'CLOSURE', f'QuickPartitioner.run:{a}<-{b}', f.path,
+                node.lineno,
+                f'{a} also inherits {b}.blocked_qudits',
+                f'`{a}` is made to wait for `{b}.qudits` without also '
+                f'inheriting `{b}.blocked_qudits`: blocking is not '
+                'transitive any more, a bin can grow across a qudit on '
+                'which an earlier, still open bin is ordered before it',
+                key='transitive',
+            )
+    rep.floor('CLOSURE', n, 1, 'bin-blocking sites in QuickPartitioner.run')
 
 
 def partitioners(ctx: Ctx) -> list[ClassInfo]:
